@@ -87,6 +87,10 @@ def le64 (bs : List UInt8) : UInt64 :=
 def le64Bytes (x : UInt64) : List UInt8 :=
   (List.range 8).map fun i => (x >>> (8 * i.toUInt64)).toUInt8
 
+/-- SHA-256 with the first two output bytes forced to zero (harness `zHash`): never the all-zero
+    root, but zero-looking to a test that inspects only part of a root -/
+def zHash : List UInt8 → List UInt8 → List UInt8 := fun a b => 0 :: 0 :: (sha256Pair a b).drop 2
+
 /-- alternative pluggable pair hash (same 20 lines exist in the Go harness). Not cryptographic;
     good enough mixing that distinct small trees get distinct roots. -/
 def altHash : HashFn := fun a b => Id.run do
